@@ -314,6 +314,17 @@ def run(scenario, world):
         elif o == 'make_gen':
             gens[op['name']] = rng_seam._REAL_DEFAULT_RNG(op['seed'])
             twins[op['name']] = rng_seam._REAL_DEFAULT_RNG(op['seed'])
+        elif o == 'bad_draw':
+            # a draw with an invalid seed (negative) raises; it must not
+            # leave anything behind that later draws pick up
+            h = op['entry']
+            if h not in entries:
+                continue
+            e = entries[h]
+            args = e.recipe['args'][op['args'] % len(e.recipe['args'])]
+            res = call(e.draw, args, -1)
+            world.probe('invalid_draw_raised' if is_exc(res)
+                        else 'invalid_draw_accepted')
         elif o == 'draw':
             h = op['entry']
             if h not in entries:
@@ -639,6 +650,11 @@ def generate(rng, index, tier):
                         'args': rng.randint(0, 1), 'seed': sd})
             if isinstance(sd, int) and rng.random() < 0.2:
                 ops[-1]['seed_np'] = True
+            kind_h = recipes[int(h[1:])]['kind']
+            if rng.random() < (0.25 if kind_h in ('postpred', 'pam')
+                               else 0.06):
+                ops.append({'op': 'bad_draw', 'entry': h,
+                            'args': rng.randint(0, 1)})
     for i, op in enumerate(ops):
         op['eid'] = i
     return {'property': PROP, 'recipes': recipes, 'ops': ops,
